@@ -177,6 +177,7 @@ func init() {
 					Fields: []string{hx(src), mode, strings.Join(fs, ",")}, Meta: map[string]string{}})
 			}
 		}
+		cases = append(cases, msHistCases(r, st, sizes(tier, 600, 20000))...)
 		return cases
 	}
 }
